@@ -135,6 +135,19 @@ theorem iterator_error_is_inert (it : Deque.Iter) (d : Deque) (x : Nat) (m : Mem
   refine ⟨?_, by rw [p1]; simp⟩
   rw [q1]; split <;> simp
 
+/-- a cursor that stands beyond the deque — the deque was shortened directly (remove_last / remove_first /
+remove_at / remove_all) behind a cursor that had already passed those elements — is outside the documented
+range `[0, size]` of `cc_deque_iter_add`: the call is rejected (it does not append), and the deque, the cursor and
+the ledger stay exactly as they were -/
+theorem iter_add_beyond_size_rejected (it : Deque.Iter) (d : Deque) (x : Nat) (m : Mem)
+    (hb : d.size < it.index) :
+    Deque.iterAdd it d x m = (.errOutOfRange, it, d, m) := by
+  unfold Deque.iterAdd
+  rw [if_neg (by omega : ¬ it.index = d.size)]
+  unfold Deque.addAt
+  rw [if_pos (by omega : it.index ≥ d.size)]
+  simp
+
 /-- zip mutators: any error other than a refused growth leaves both deques physically unchanged, and the
 cursor and ledger as they were; after a refused growth both contents and the cursor are unchanged -/
 theorem zip_error_is_inert (it : Deque.Iter) (d1 d2 : Deque) (x y : Nat) (m : Mem) (h1 : d1.Inv) (h2 : d2.Inv) :
